@@ -51,6 +51,8 @@ type HTTPCase struct {
 	Record            bool `json:"record,omitempty"`
 	KeepAliveUs       int  `json:"keepAliveUs,omitempty"`
 	DeliveryTimeoutUs int  `json:"deliveryTimeoutUs,omitempty"`
+	// C05, websocket only: the transport's options x a client that stops cooperating at some stage (c05ext.go RunWSX)
+	WSX *WSX `json:"wsx,omitempty"`
 }
 
 type HTTPResult struct {
@@ -81,10 +83,16 @@ func RunHTTP(es graphql.ExecutableSchema, c HTTPCase) HTTPResult {
 	srv.AddTransport(transport.MultipartMixed{DeliveryTimeout: time.Duration(c.DeliveryTimeoutMs)*time.Millisecond + time.Duration(c.DeliveryTimeoutUs)*time.Microsecond})
 	srv.AddTransport(transport.GET{})
 	srv.AddTransport(transport.POST{})
+	if err := useShipped(srv.Use, c.Shipped); err != nil {
+		return HTTPResult{ID: c.ID, Transport: c.Transport, Body: "bad shipped: " + err.Error()}
+	}
 	srv.SetRecoverFunc(func(ctx context.Context, err any) error {
 		st.mu.Lock()
 		st.Recov++
 		st.mu.Unlock()
+		if c.RecoverDelayUs > 0 {
+			time.Sleep(time.Duration(c.RecoverDelayUs) * time.Microsecond) // a slow (logging) recover hook
+		}
 		return fmt.Errorf("recovered: %v", err)
 	})
 	var produced []string
@@ -136,6 +144,9 @@ func RunHTTP(es graphql.ExecutableSchema, c HTTPCase) HTTPResult {
 			bm["operationName"] = c.OperationName
 		}
 	}
+	if len(c.Extensions) > 0 {
+		bm["extensions"] = c.Extensions
+	}
 	body, _ := json.Marshal(bm)
 	var req *http.Request
 	switch c.Transport {
@@ -144,6 +155,10 @@ func RunHTTP(es graphql.ExecutableSchema, c HTTPCase) HTTPResult {
 		if len(c.Variables) > 0 {
 			vb, _ := json.Marshal(c.Variables)
 			q.Set("variables", string(vb))
+		}
+		if len(c.Extensions) > 0 {
+			eb, _ := json.Marshal(c.Extensions)
+			q.Set("extensions", string(eb))
 		}
 		req, _ = http.NewRequest("GET", ts.URL+"/?"+q.Encode(), nil)
 	default:
@@ -155,6 +170,9 @@ func RunHTTP(es graphql.ExecutableSchema, c HTTPCase) HTTPResult {
 		req.Header.Set("Accept", "text/event-stream")
 	case "multipart":
 		req.Header.Set("Accept", "multipart/mixed")
+	}
+	for k, v := range c.Headers {
+		req.Header.Set(k, v)
 	}
 	to := time.Duration(c.TimeoutMs) * time.Millisecond
 	if to == 0 {
@@ -225,6 +243,9 @@ func RunHTTP(es graphql.ExecutableSchema, c HTTPCase) HTTPResult {
 // RunWS runs one operation over the graphql-transport-ws websocket transport of the real handler.Server
 // (a query or a query with @defer is a legal `subscribe` payload: every payload is a `next`, then `complete`).
 func RunWS(es graphql.ExecutableSchema, c HTTPCase) HTTPResult {
+	if c.WSX != nil {
+		return RunWSX(es, c)
+	}
 	st := &State{Plan: c.Plan, Schema: es.Schema(), CancelAt: int64(c.CancelAt)}
 	srv := handler.New(es)
 	wst := transport.Websocket{}
@@ -234,6 +255,9 @@ func RunWS(es graphql.ExecutableSchema, c HTTPCase) HTTPResult {
 		}
 	}
 	srv.AddTransport(wst)
+	if err := useShipped(srv.Use, c.Shipped); err != nil {
+		return HTTPResult{ID: c.ID, Transport: c.Transport, Body: "bad shipped: " + err.Error()}
+	}
 	srv.SetRecoverFunc(func(ctx context.Context, err any) error {
 		st.mu.Lock()
 		st.Recov++
@@ -261,7 +285,7 @@ func RunWS(es graphql.ExecutableSchema, c HTTPCase) HTTPResult {
 			sub, startT, nextT = "graphql-ws", "start", "data"
 		}
 		d := websocket.Dialer{Subprotocols: []string{sub}, HandshakeTimeout: to}
-		conn, resp, err := d.Dial("ws"+strings.TrimPrefix(ts.URL, "http")+"/", nil)
+		conn, resp, err := d.Dial("ws"+strings.TrimPrefix(ts.URL, "http")+"/", headerOf(c.Headers))
 		if err != nil {
 			res.Body = "dial: " + err.Error()
 			return
